@@ -513,11 +513,120 @@ func m2(idx int64, r *rand.Rand) {
 	}
 }
 
+
+// ------------------------------------------------------------------ M3: the gate's limit is the limit in force
+//
+// A counting gate enforces the limit that is in force, so the limiter has to hand each new estimate to the
+// strategy atomically with the window roll-over that produced it (both are serialised by the limiter mutex with
+// every Acquire).  The strategy is wrapped by a collaborator that takes its time inside SetLimit; every
+// decision is still taken by the real strategy.  Monitors: (a) at the instant SetLimit(v) is applied the
+// algorithm's estimate is still the one v was read from; (b) at rest after every burst the enforced limit is the
+// estimate, and a sequential probe is granted exactly estimate - outstanding times.
+func m3Publish(idx int64, r *rand.Rand) {
+	stratKind := []string{"simple", "precise"}[r.IntN(2)]
+	traj := []int{4, 6, 3, 7, 5, 8, 2, 9}
+	off := r.IntN(len(traj))
+	rec := inject.NewScriptedLimit(4, func(n int) int { return traj[(n+off)%len(traj)] })
+	algo := "scripted"
+	if r.IntN(3) == 0 {
+		rec, algo = inject.NewWrappedLimit(limgen.Spec{Kind: "aimd", Initial: 6, Backoff: 0.8, IncBy: 1}.New(nil, "c01")), "aimd"
+	}
+	var inner core.Strategy
+	var getLimit func() int
+	if stratKind == "simple" {
+		s := strategy.NewSimpleStrategy(4)
+		inner, getLimit = s, s.GetLimit
+	} else {
+		s := strategy.NewPreciseStrategy(4)
+		inner, getLimit = s, s.GetLimit
+	}
+	var stale atomic.Int64
+	var applied atomic.Int64
+	var firstStale atomic.Value
+	slowEvery := 1 + r.IntN(3)
+	st := &inject.YieldStrategy{Inner: inner, BeforeSetLimit: func(v int) {
+		n := applied.Add(1)
+		if n%int64(slowEvery) == 0 {
+			time.Sleep(50 * time.Microsecond)
+		} else {
+			runtime.Gosched()
+		}
+		if now := rec.EstimatedLimit(); now != v {
+			if stale.Add(1) == 1 {
+				firstStale.Store(fmt.Sprintf("SetLimit(%d) applied while the algorithm's estimate is %d", v, now))
+			}
+		}
+	}}
+	dl, err := limiter.NewDefaultLimiter(rec, 1, 1, 0, 10, st, limit.NoopLimitLogger{}, core.EmptyMetricRegistryInstance)
+	if err != nil {
+		panic(err)
+	}
+	nG := 4 + r.IntN(9)
+	bursts := 6
+	cfg := rt.J{"target": "DefaultLimiter+" + stratKind, "algorithm": algo, "goroutines": nG, "slow_setlimit_every": slowEvery}
+	for b := 0; b < bursts; b++ {
+		var wg sync.WaitGroup
+		for g := 0; g < nG; g++ {
+			wg.Add(1)
+			go func(g int) {
+				defer wg.Done()
+				for i := 0; i < 40; i++ {
+					l, ok := dl.Acquire(context.Background())
+					if !ok {
+						runtime.Gosched()
+						continue
+					}
+					if (i+g)%7 == 0 && algo == "aimd" {
+						l.OnDropped()
+					} else {
+						l.OnSuccess()
+					}
+				}
+			}(g)
+		}
+		wg.Wait()
+		rt.Count("m3_bursts", 1)
+		if stale.Load() > 0 {
+			rt.Violation("C01/limiter+"+stratKind+"/limit-handed-to-the-strategy-is-not-the-estimate-in-force", idx, rt.J{"config": cfg, "burst": b, "first": firstStale.Load(), "stale_publications": stale.Load()})
+			return
+		}
+		est := max1(rec.EstimatedLimit())
+		if got := getLimit(); got != est {
+			rt.Violation("C01/limiter+"+stratKind+"/enforced-limit-at-rest-is-not-the-estimate", idx, rt.J{"config": cfg, "burst": b, "enforced": got, "estimate": est})
+			return
+		}
+		// sequential probe at rest: exactly est grants, then a refusal; nothing is completed (no samples) while probing
+		var held []core.Listener
+		for {
+			l, ok := dl.Acquire(context.Background())
+			if !ok {
+				break
+			}
+			held = append(held, l)
+			if len(held) > est+2 {
+				break
+			}
+		}
+		if len(held) != est {
+			rt.Violation("C01/limiter+"+stratKind+"/probe-at-rest-granted-other-than-the-limit-in-force", idx, rt.J{"config": cfg, "burst": b, "granted": len(held), "limit_in_force": est})
+			return
+		}
+		for _, l := range held {
+			l.OnIgnore()
+		}
+		rt.Count("m3_probes_at_rest", 1)
+	}
+	rt.Count("m3_setlimit_applications_checked", applied.Load())
+	rt.Distinct(fmt.Sprintf("m3|%v", cfg))
+}
+
 func TestCheck(t *testing.T) {
 	rt.Cases(1260, 63000, func(idx int64) {
 		r := rt.CaseRand(1, idx)
 		rt.Case()
 		switch m := idx % 21; {
+		case m == 13:
+			m3Publish(idx, r)
 		case m < 14:
 			m1Limiter(idx, r)
 		case m < 20:
